@@ -428,7 +428,72 @@ func gatedCase(prop string, target, head uint64, batch int) {
 	emit("%s kind=gated target=%d head=%d batch=%d => result=%s", prop, target, head, batch, out)
 }
 
+// syncDrainCase: several Append batches are queued while the flusher is held at the start of the first;
+// a Sync issued after all Appends returned must cover ALL of them ("every header whose Append has been
+// followed by Sync is readable").
+func syncDrainCase(prop string, nb int) {
+	ctx := context.Background()
+	chain := vhdr.Chain("A", 3*nb, time.Now().Add(-time.Hour).UnixNano(), 1e9, 0)
+	release := make(chan struct{})
+	var once sync.Once
+	held := make(chan struct{})
+	store.VerifSetScheduler(func(ctx context.Context, point string) {
+		if point == "flush.begin" {
+			first := false
+			once.Do(func() { first = true; close(held); <-release })
+			if !first {
+				time.Sleep(3 * time.Millisecond) // a busy flush loop: later batches take a while
+			}
+		}
+	})
+	defer store.VerifSetScheduler(nil)
+	st, err := store.NewStore[*vhdr.Header](&memds.Plain{C: memds.NewCore()}, store.WithWriteBatchSize(2))
+	if err != nil {
+		panic(err)
+	}
+	if err := st.Start(ctx); err != nil {
+		panic(err)
+	}
+	defer st.Stop(ctx) //nolint:errcheck
+	for i := 0; i < nb; i++ {
+		_ = st.Append(ctx, chain[3*i:3*i+3]...)
+	}
+	select {
+	case <-held:
+	case <-time.After(time.Second):
+	}
+	synced := make(chan error, 1)
+	go func() { synced <- st.Sync(ctx) }()
+	time.Sleep(5 * time.Millisecond)
+	close(release)
+	res := "ok"
+	select {
+	case err := <-synced:
+		if err != nil {
+			res = "err"
+		}
+	case <-time.After(3 * time.Second):
+		res = "hang"
+	}
+	hd := uint64(0)
+	if h, err := st.Head(ctx); err == nil {
+		hd = h.H
+	}
+	readable := 0
+	for h := 1; h <= 3*nb; h++ {
+		if _, err := st.GetByHeight(cancelled, uint64(h)); err == nil {
+			readable++
+		}
+	}
+	emit("%s kind=syncdrain batches=%d => sync=%s head=%d readable=%d want=%d", prop, nb, res, hd, readable, 3*nb)
+}
+
 func runConc(prop, tier string, r *rng) {
+	if prop == "C17" {
+		for _, nb := range []int{2, 3, 5, 9} {
+			syncDrainCase(prop, nb)
+		}
+	}
 	if prop == "C12" {
 		for _, b := range []int{1, 2, 64} {
 			gatedCase(prop, 9, 5, b) // not contiguous with Head
